@@ -45,3 +45,7 @@ def run(ctx):
     from .. import misc_guards as _mg
 
     _mg.inverse_dof_map(ctx)  # (tools/wiring.py) the subspace's global2local is what its colouring and congruence map are read from
+    from .. import singular as _sing
+
+    _sing.check_segments(ctx)  # (tools/wiring.py) the singular part of every dense operator: per-pair segments, offsets
+    _sing.check_offsets(ctx)
